@@ -193,6 +193,40 @@ theorem scan_le_spec (cfg : Cfg) (msg : Msg) (neg : Bool) (now : Int)
         | rrsig _ => rw [hkind] at hk; cases hk
         | opt => rw [hkind] at hk; cases hk
 
+/-- `CalculateCacheTTL` itself stays within `clamp(min(components), 5 s, 24 h)`
+for every class but the resolution-failure one. -/
+theorem calculate_le_spec (cfg : Cfg) (msg : Msg) (rt : RespType) (now : Int)
+    (hrt : rt ≠ .servfail) (h1 : cfg.minC ≤ 5 * S) (h2 : cfg.maxC ≤ 86400 * S) :
+    calculateCacheTTL cfg msg rt now ≤ specLifetime msg rt.isNegative now := by
+  have hS : (0 : Int) < S := S_pos
+  have hspec5 : 5 * S ≤ specLifetime msg rt.isNegative now := by
+    unfold specLifetime clamp; split
+    · exact Int.le_refl _
+    · split <;> omega
+  have hbody : (if !hasRecords msg then cfg.minC else
+      if scanMin cfg msg now < cfg.minC then cfg.minC
+      else if scanMin cfg msg now > cfg.maxC then cfg.maxC
+      else scanMin cfg msg now) ≤ specLifetime msg rt.isNegative now := by
+    split
+    · omega
+    · have hc := scan_le_spec cfg msg rt.isNegative now h1 h2
+      have hmax := scanMin_le_max cfg msg now
+      have hfold := foldl_boundMin_le_init (specComponents msg rt.isNegative now) (86400 * S)
+      generalize scanMin cfg msg now = m at hc hmax ⊢
+      unfold specLifetime clamp at hspec5 ⊢
+      generalize (specComponents msg rt.isNegative now).foldl boundMin (86400 * S) = c at hc hfold hspec5 ⊢
+      split
+      · split <;> (try split) <;> omega
+      · split
+        · split <;> (try split) <;> omega
+        · split <;> (try split) <;> omega
+  cases rt with
+  | servfail => exact absurd rfl hrt
+  | other => unfold calculateCacheTTL; simp only; omega
+  | success => unfold calculateCacheTTL; simpa using hbody
+  | nxdomain => unfold calculateCacheTTL; simpa using hbody
+  | norecords => unfold calculateCacheTTL; simpa using hbody
+
 /-- **Admission upper bound.** For every message, response class that is
 stored as an answer entry, instant, and scope, the TTL the store gives the
 entry is at most `clamp(min(record TTLs, RRSIG times to expiry, SOA minimum
@@ -209,39 +243,14 @@ theorem admission_upper_bound (cfg : Cfg) (msg : Msg) (rt : RespType) (now : Int
   constructor
   · unfold admitTTL
     refine Int.le_trans (capTTL_le _ _ _) ?_
-    -- the spec is at least 5 s
     have hspec5 : 5 * S ≤ specLifetime msg rt.isNegative now := by
       unfold specLifetime clamp; split
       · exact Int.le_refl _
       · split <;> omega
-    -- it suffices to bound CalculateCacheTTL by the spec
-    suffices hcalc : calculateCacheTTL cfg msg rt now ≤ specLifetime msg rt.isNegative now by
-      rcases ttlManager_le cfg.posMin cfg.posMax (calculateCacheTTL cfg msg rt now) with h | h
-      · exact Int.le_trans h hcalc
-      · rw [h]; omega
-    have hbody : (if !hasRecords msg then cfg.minC else
-        if scanMin cfg msg now < cfg.minC then cfg.minC
-        else if scanMin cfg msg now > cfg.maxC then cfg.maxC
-        else scanMin cfg msg now) ≤ specLifetime msg rt.isNegative now := by
-      split
-      · omega
-      · have hc := scan_le_spec cfg msg rt.isNegative now h1 h2
-        have hmax := scanMin_le_max cfg msg now
-        have hfold := foldl_boundMin_le_init (specComponents msg rt.isNegative now) (86400 * S)
-        generalize scanMin cfg msg now = m at hc hmax ⊢
-        unfold specLifetime clamp at hspec5 ⊢
-        generalize (specComponents msg rt.isNegative now).foldl boundMin (86400 * S) = c at hc hfold hspec5 ⊢
-        split
-        · split <;> (try split) <;> omega
-        · split
-          · split <;> (try split) <;> omega
-          · split <;> (try split) <;> omega
-    cases rt with
-    | servfail => exact absurd rfl hrt
-    | other => unfold calculateCacheTTL; simp only; omega
-    | success => unfold calculateCacheTTL; simpa using hbody
-    | nxdomain => unfold calculateCacheTTL; simpa using hbody
-    | norecords => unfold calculateCacheTTL; simpa using hbody
+    have hcalc := calculate_le_spec cfg msg rt now hrt h1 h2
+    rcases ttlManager_le cfg.posMin cfg.posMax (calculateCacheTTL cfg msg rt now) with h | h
+    · exact Int.le_trans h hcalc
+    · rw [h]; omega
   · intro hsc hpos
     unfold admitTTL
     rw [hsc]
@@ -734,6 +743,42 @@ theorem adopted_denial_binds_alias (m : Option Int) (c : Int) :
 
 example : (forkInherit (some (600 * S)) [some (20 * S)] true).1 = some (20 * S) := by decide
 
+/-- **An alias that adopts its target's NXDOMAIN lives no longer than that
+denial** (/repo 94ad58d): the terminal-NXDOMAIN branch also folds
+`now + CalculateCacheTTL(sub-answer, NXDOMAIN)` into the request tree, so the
+alias entry stored afterwards has hard expiry at most
+`now + clamp(min(the denial's record TTLs, RRSIG windows, SOA minima), 5 s, 24 h)`
+— 5 s (at most) for a denial that carries no record at all. -/
+theorem adopted_denial_bounds_alias_lifetime (cfg : Cfg) (m : Option Int) (denial : Msg) (now stored ttl : Int)
+    (h1 : cfg.minC ≤ 5 * S) (h2 : cfg.maxC ≤ 86400 * S) :
+    let cut := boundCut m (some (adoptedDenialBound cfg denial now))
+    let alias : Entry := { stored := stored, ttl := ttl, cut := cut }
+    alias.hardUntil ≤ now + specLifetime denial true now ∧
+      (hasRecords denial = false → alias.hardUntil ≤ now + 5 * S) := by
+  intro cut alias
+  have hcalc := calculate_le_spec cfg denial .nxdomain now (by decide) h1 h2
+  -- the fold leaves a bound no later than the denial's
+  have hcut : ∃ c, alias.cut = some c ∧ c ≤ adoptedDenialBound cfg denial now := by
+    show ∃ c, boundCut m (some (adoptedDenialBound cfg denial now)) = some c ∧ _
+    cases m with
+    | none => exact ⟨_, rfl, Int.le_refl _⟩
+    | some b =>
+      unfold boundCut; simp only
+      split
+      · exact ⟨_, rfl, Int.le_refl _⟩
+      · exact ⟨b, rfl, by omega⟩
+  obtain ⟨c, hc, hle⟩ := hcut
+  have hh := hardUntil_le_cut alias c hc
+  unfold adoptedDenialBound at hle
+  constructor
+  · have : RespType.isNegative .nxdomain = true := rfl
+    rw [this] at hcalc
+    omega
+  · intro hno
+    have : calculateCacheTTL cfg denial .nxdomain now = cfg.minC := by
+      unfold calculateCacheTTL; simp [hno]
+    omega
+
 /-- **One refresh per entry**: an entry whose refresh has been claimed does
 not claim another until the claim is released (`CacheEntry.prefetch`), and a
 claim is made only inside the prefetch window — at most `threshold` percent of
@@ -979,6 +1024,10 @@ example : collectWireChase (41 * S) [{ stored := 40 * S, ttl := 600 * S, cut := 
 -- a cut below the floor: SOA minimum 2 s
 example : cutRecordTTL (7200 * S) 0 300 2 [] none = some (2 * S) := by decide
 example : denialProofExpiry (10800 * S) 0 (600 * S) (some (3 * S)) [{ rr := { ttl := 300 } }] = some (3 * S) := by decide
+
+-- an alias adopting a record-less NXDOMAIN at 7 s is bound to 12 s; one with an SOA (minimum 30) to 30 s
+example : adoptedDenialBound (exCfg 0) {} (7 * S) = 12 * S := by decide
+example : adoptedDenialBound (exCfg 0) { ns := [{ ttl := 60, kind := .soa 30 }] } 0 = 30 * S := by decide
 
 -- synthesis: NSEC piece admitted at 0 for 300 s, the zone's SOA entry replaced at 50 s by a 30 s one;
 -- at 60 s the denial is served with 19 s on every record and expires with the SOA at 80 s
